@@ -6,5 +6,9 @@ VARIABLES rows, cols, order
 Init == rows \in 1..SMAX /\ cols \in 1..SMAX /\ order \in {0, 1}
 Next == UNCHANGED <<rows, cols, order>>
 StrideInv == StrideBijective(rows, cols, order) /\ TransposeBySwap(rows, cols, order) /\ DiagonalWalk(rows, cols, order)
+\* views with leading dimension up to 3 beyond the packed size
+ViewInv   == \A pad \in 0..3 :
+                 LET ld == (IF order = 0 THEN cols ELSE rows) + pad
+                 IN  ViewInjective(rows, cols, order, ld) /\ (PrefixIsView(rows, cols, order, ld) <=> Packed(rows, cols, order, ld))
 BlockInv  == (rows <= 4 /\ cols <= 4) => BlockCopyBijective(rows, cols, 2) /\ BlockCopyBijective(rows, cols, 3)
 =============================================================================
